@@ -20,6 +20,7 @@ import (
 	"go/token"
 	"os"
 	"path/filepath"
+	"regexp"
 	"strconv"
 	"strings"
 )
@@ -212,11 +213,12 @@ func main() {
 	type write struct {
 		field, verb string
 		guarded     bool
+		guard       string
 	}
 	var writes []write
 	seen := map[string]bool{}
-	var walk func(n ast.Node, guarded bool)
-	visitCall := func(ce *ast.CallExpr, guarded bool) {
+	var walk func(n ast.Node, guarded bool, guard string)
+	visitCall := func(ce *ast.CallExpr, guarded bool, guard string) {
 		verb := "raw"
 		for _, a := range ce.Args {
 			if bl, ok := a.(*ast.BasicLit); ok && bl.Kind == token.STRING {
@@ -251,29 +253,33 @@ func main() {
 				for _, f := range fields {
 					if !seen[f] {
 						seen[f] = true
-						writes = append(writes, write{f, verb, guarded})
+						writes = append(writes, write{f, verb, guarded, guard})
 					}
 				}
 				return true
 			})
 		}
 	}
-	walk = func(n ast.Node, guarded bool) {
+	walk = func(n ast.Node, guarded bool, guard string) {
 		switch x := n.(type) {
 		case nil:
 			return
 		case *ast.BlockStmt:
 			for _, s := range x.List {
-				walk(s, guarded)
+				walk(s, guarded, guard)
 			}
 		case *ast.IfStmt:
-			walk(x.Init, guarded)
-			walk(x.Body, true)
+			walk(x.Init, guarded, guard)
+			g := exprStr(x.Cond)
+			if guard != "" {
+				g = guard + " && " + g
+			}
+			walk(x.Body, true, g)
 			if x.Else != nil {
-				walk(x.Else, true)
+				walk(x.Else, true, "else:"+g)
 			}
 		case *ast.ForStmt:
-			walk(x.Body, true)
+			walk(x.Body, true, guard)
 		case *ast.RangeStmt:
 			// `for _, k := range keys(h.languageMap)`: the ranged expression reaches the writes in the body
 			ast.Inspect(x.X, func(m ast.Node) bool {
@@ -291,7 +297,7 @@ func main() {
 							for _, f := range hsrc[se.Sel.Name] {
 								if !seen[f] {
 									seen[f] = true
-									writes = append(writes, write{f, "range", true})
+									writes = append(writes, write{f, "range", true, guard})
 								}
 							}
 						}
@@ -299,18 +305,18 @@ func main() {
 				}
 				return true
 			})
-			walk(x.Body, true)
+			walk(x.Body, true, guard)
 		default:
 			ast.Inspect(n, func(m ast.Node) bool {
 				if ce, ok := m.(*ast.CallExpr); ok {
 					// only calls that (transitively) feed the hasher: Write/Appendf/Fprintf/Sprintf/[]byte(...)
-					visitCall(ce, guarded)
+					visitCall(ce, guarded, guard)
 				}
 				return true
 			})
 		}
 	}
-	walk(gh.Body, false)
+	walk(gh.Body, false, "")
 	if len(writes) == 0 {
 		die("GetHash(): no hashed field recognised")
 	}
@@ -426,6 +432,29 @@ func main() {
 		fmt.Fprintf(&b, "  (%s, %s, %v)%s\n", q(w.field), q(w.verb), w.guarded, sep)
 	}
 	b.WriteString("].\nDefinition hashed_fields : list string := map (fun x => fst (fst x)) hash_writes.\n\n")
+	b.WriteString("(* the if-conditions guarding each write (empty = unconditional) *)\nDefinition hash_guards : list (string * string) := [\n")
+	for i, w := range writes {
+		sep := ";"
+		if i == len(writes)-1 {
+			sep = ""
+		}
+		fmt.Fprintf(&b, "  (%s, %s)%s\n", q(w.field), q(w.guard), sep)
+	}
+	b.WriteString("].\n")
+	// fields written under `h.f != 0 && h.f != <the SetDefaults default of F>`: zero is hashed like the default
+	var zd []string
+	guardRe := regexp.MustCompile(`^(\w+)\.(\w+) != 0 && (\w+)\.(\w+) != (\w+)$`)
+	for _, w := range writes {
+		m := guardRe.FindStringSubmatch(w.guard)
+		if m == nil || m[1] != m[3] || m[2] != m[4] || !hvars[m[1]] || len(hsrc[m[2]]) != 1 || hsrc[m[2]][0] != w.field {
+			continue
+		}
+		cv, ok := intConst(files, m[5])
+		if dv, ok2 := defaults[w.field]; ok && ok2 && cv == dv {
+			zd = append(zd, q(w.field))
+		}
+	}
+	fmt.Fprintf(&b, "Definition zero_is_default_fields : list string := [%s].\n\n", strings.Join(zd, "; "))
 	fmt.Fprintf(&b, "Definition index_format_version : N := %d%%N.\nDefinition feature_version : N := %d%%N.\nDefinition next_index_format_version : N := %d%%N.\n", ifv, fv, nfv)
 	b.WriteString("(* readVersions: (IndexFormatVersion, FeatureVersion) *)\nDefinition read_versions : list (N * N) := [")
 	for i, r := range rvs {
